@@ -295,42 +295,42 @@ func TestC04(t *testing.T) {
 				}
 				comp.Exts[mi].Data = nil
 				desc = append(desc, "oe_data_empty")
-			case hasFault(fs, "oe_out_of_order"):
-				// need two references in reversed outer order
+			case hasFault(fs, "oe_out_of_order"), hasFault(fs, "oe_repeated"):
+				// a list of m references in outer order (a drawn subset of the referable outer
+				// extensions), broken at a drawn position: two entries swapped, or one repeated later
 				var cands []uint16
 				for _, e := range tp.Outer.Exts {
 					if e.Type != hello.ExtECH && e.Type != hello.ExtSNI {
 						cands = append(cands, e.Type)
 					}
 				}
-				if len(cands) < 2 {
-					t.Skip("outer hello has fewer than two referable extensions")
+				ooo := hasFault(fs, "oe_out_of_order")
+				if len(cands) < 2 && ooo || len(cands) < 1 {
+					t.Skip("outer hello has too few referable extensions")
 				}
-				i := uniform(t, "ooo_i", len(cands)-1)
-				j := i + 1 + uniform(t, "ooo_j", len(cands)-1-i)
-				comp.Exts[mi].Data = mk([]uint16{cands[j], cands[i]})
-				comp = dropTypes(comp, mi, cands[i], cands[j])
-				mi = comp.Find(hello.ExtOuterExtensions)
-				desc = append(desc, fmt.Sprintf("oe_out_of_order(%d,%d)", j, i))
-			case hasFault(fs, "oe_repeated"):
-				var cands []uint16
-				for _, e := range tp.Outer.Exts {
-					if e.Type != hello.ExtECH && e.Type != hello.ExtSNI {
-						cands = append(cands, e.Type)
+				var list []uint16
+				for _, c := range cands {
+					if rapid.IntRange(0, 2).Draw(t, "ref_take") != 0 {
+						list = append(list, c)
 					}
 				}
-				if len(cands) < 1 {
-					t.Skip("no referable extension")
+				for len(list) < 2 && ooo || len(list) < 1 {
+					list = append([]uint16{}, cands[:min(len(cands), 2)]...)
 				}
-				i := uniform(t, "rep_i", len(cands))
-				ts := []uint16{cands[i], cands[i]}
-				if i+1 < len(cands) && rapid.Bool().Draw(t, "rep_tail") {
-					ts = append(ts, cands[i+1])
+				if ooo {
+					p := uniform(t, "ooo_p", len(list)-1)
+					q := p + 1 + uniform(t, "ooo_q", len(list)-1-p)
+					list[p], list[q] = list[q], list[p]
+					desc = append(desc, fmt.Sprintf("oe_out_of_order(%d<->%d of %d)", p, q, len(list)))
+				} else {
+					p := uniform(t, "rep_p", len(list))
+					q := p + 1 + uniform(t, "rep_q", len(list)-p)
+					list = append(list[:q], append([]uint16{list[p]}, list[q:]...)...)
+					desc = append(desc, fmt.Sprintf("oe_repeated(%d again at %d of %d)", p, q, len(list)))
 				}
-				comp.Exts[mi].Data = mk(ts)
-				comp = dropTypes(comp, mi, ts...)
+				comp.Exts[mi].Data = mk(list)
+				comp = dropTypes(comp, mi, list...)
 				mi = comp.Find(hello.ExtOuterExtensions)
-				desc = append(desc, fmt.Sprintf("oe_repeated(%d)", i))
 			case hasFault(fs, "oe_absent"):
 				var ty uint16
 				for {
